@@ -167,6 +167,7 @@ type Checker struct {
 	// SkipModel: ops for which model comparison is skipped (never used for claimed projections).
 	NoModel bool
 	SigPrefix string
+	hasCorr bool // one (shrunk) correspondence finding per suite is enough
 }
 
 func (c *Checker) mismatch(cs *Case) (int, string, string, *RunResult) {
@@ -221,7 +222,8 @@ func (c *Checker) Check(cs *Case, nontrivial func(*RunResult) bool) {
 			c.Stats.ModelCompare += len(r.Ops)
 		}
 	}
-	if i >= 0 && len(c.Findings) < c.MaxFind {
+	if i >= 0 && len(c.Findings) < c.MaxFind && !c.hasCorr {
+		c.hasCorr = true
 		sh := shrinkOps(cs.Ops, func(ops []Tok) bool {
 			j, _, _, _ := c.mismatch(&Case{cs.Machine, ops})
 			return j >= 0
